@@ -1562,8 +1562,9 @@ pub fn lying_ops(case: &mut Case, n: usize, full: bool) -> Vec<Vec<Op>> {
                         continue;
                     }
                     // the gross lie: only where the byte size cannot be a valid allocation request (a valid but enormous one
-                    // aborts the process when the allocator refuses it), i.e. not for one-byte elements, and not on fixed backends
-                    if delta == LIE_HUGE && (case.cfg.elem.size < 2 || case.cfg.fixed_cap.is_some() || k > 1) {
+                    // aborts the process when the allocator refuses it), i.e. not for one-byte elements, and not on fixed backends; not for
+                    // elements that own heap memory either (the refused splice may leak its tail: a real leak for the leak detectors)
+                    if delta == LIE_HUGE && (case.cfg.elem.size < 2 || case.cfg.elem.heap || case.cfg.fixed_cap.is_some() || k > 1) {
                         continue;
                     }
                     if let Some(c) = case.cfg.fixed_cap {
